@@ -241,7 +241,9 @@ class C11(Prop):
         # round 4
         "cg_statistics_are_of_the_proved_run", "cg_terminates_within_max_iterations", "cg_descends_unless_brent_loses_the_bracket_point",
         "weibull_objective_is_neg_loglik", "weibull_loglik_derivatives", "weibull_fit_optimality_certificate", "weibull_stationary_is_global_maximiser_partial",
-        "weibull_sxp_fit_parameters_positive", "gamma_rate_is_maximiser")]
+        "weibull_sxp_fit_parameters_positive", "gamma_rate_is_maximiser", "truncated_gumbel_gradient_is_derivative",
+        "set_expect_fills_all_bins", "expected_tail_emin_in_range", "goodness_never_faults", "goodness_accounts_for_its_counts",
+        "plot_accounts_for_data", "plot_survival_accounts_for_data", "declare_rounding_keeps_the_data")]
     claimed = True
     technique = ("Lean 4 proof over an executable line-by-line model (numeric class: Float for the bit-exact differential run, Q/R for the theorems) "
                  "+ bit-exact correspondence with the ASan/UBSan-built C code + exact-rational / log-likelihood property monitors")
@@ -249,20 +251,31 @@ class C11(Prop):
                   "HISTOGRAM - esl_histogram Create/Add account for every accepted value exactly once, in the bin whose half-open interval (bmin+b*w, bmin+(b+1)*w] contains it, "
                   "however often the bins grew in either direction (growth changes no count and no boundary); counts sum to n; imin/imax/xmin/xmax/n are what they say; Score2Bin answers "
                   "eslERANGE instead of overflowing; Add never faults for any numeric class (incl. binary64); GetRank/GetTail/GetTailByMass return exactly the sorted raw data "
-                  "(binary search in bounds and terminating); SetTail/SetTailByMass/DeclareCensoring bookkeeping (phi, cmin, z, No, Nc) equals the counts of raw values below/above the threshold. "
+                  "(binary search in bounds and terminating); SetTail/SetTailByMass/DeclareCensoring bookkeeping (phi, cmin, z, No, Nc) equals the counts of raw values below/above the threshold; "
+                  "DeclareRounding keeps the data; SetExpect fills exactly expect[0..nb-1]; SetExpectedTail keeps emin in 0..nb for EVERY base value (7d2bcba); Goodness never reads outside "
+                  "obs[]/expect[] nor writes outside its 2nb+1 re-bins and its re-bins account for every count of the evaluated range; the tables Plot/PlotSurvival print account for all n values (e843eeb). "
                   "FITS - exponential: (min x, 1/(mean-min)) is THE likelihood maximiser; Gumbel complete/censored/fixed-lambda: mu is the exact maximiser for the returned lambda, lawless416/422 "
                   "is the derivative of the concave profile likelihood, so an eslOK result is the global maximiser up to n*1e-5*|lambda'-lambda|; termination of every loop; log-normal closed form. "
+                  "Weibull: wei_func is minus the log-likelihood, its partial derivatives, lambda = exp(w) > 0, tau = exp(v) > 0, and the log-likelihood is concave in (tau, tau*log lambda): a "
+                  "stationary point is THE global maximum and the shortfall of ANY point is bounded by its derivatives (optimality certificate). Truncated Gumbel: tevd_grad is the gradient of "
+                  "tevd_func (HasDerivAt, main branches). Gamma: lambda = tau/xbar is the maximiser in lambda for every tau, gam_nll is minus the profile likelihood. "
+                  "OPTIMISERS - esl_min_ConjugateGradientDescent/bracket/brent/numeric_derivative and esl_root_Bisection/NewtonRaphson modelled line by line (any objective, numeric class): documented "
+                  "status, <= max_iterations rows and <= brack_maxiter rounds per row, fx = f(x) on return, bracket post-condition, brent never worse than its start, bisection keeps the root "
+                  "bracketed and converges for roots of either sign (8354c02); descent holds unless a brent() call returns above bracket()'s middle point (and a counter-example shows it can). "
                   "The hand model is tied to the working tree by a differential run (bit-identical on the clean tree; integers/copies exact, computed doubles to 1e-12/1e-7 relative) over histogram "
-                  "histories and every closed-form/Newton fit; property monitors (exact rational bin membership, queries vs sorted raw data, local pattern search of an independently evaluated "
-                  "log-likelihood around every optimiser result incl. binned fits, location = min x, recovery on exact quantile grids) report concrete failing inputs.")
+                  "histories, every closed-form/Newton/CG fit, the solvers on shared objective families (quadratic, Rosenbrock, exp-linear, log-barrier, needle, Weibull/gamma/stretched-exponential "
+                  "negative log-likelihoods of generated data) incl. the whole ESL_MIN_DAT table (iterations, bracket/brent rounds, function evaluations, fx trace); property monitors (exact rational bin "
+                  "membership, queries vs sorted raw data, local pattern search of an independently evaluated log-likelihood around every optimiser result incl. binned fits, location = min x, recovery on "
+                  "exact quantile grids, plot tables summing to n, p-values in [0,1]) report concrete failing inputs.")
     level_note = ("Residual: binary64 rounding (L0) is not a theorem (values within rounding distance of a bin edge; exp(-lambda*x) under/overflow). "
-                  "The conjugate-gradient minimiser (esl_min_ConjugateGradientDescent, numeric_derivative, bracket, brent), the Weibull / stretched-exponential / truncated-Gumbel / binned-Weibull "
-                  "fits and the gamma fits (generalized Newton, count histogram, binned bisection, esl_stats_Psi/Trigamma/LogGamma) ARE modelled and compared with the C code on every run; proved for them: "
-                  "termination (caps; brent's uncapped loop only by fuel), documented status, location = smallest observation, eslOK => the optimiser's stopping rule held. NOT a theorem for them: that the "
-                  "point reached maximises the likelihood (monitored: local pattern search, fit >= generating parameters, recovery on exact quantile grids of every family). "
-                  "Not modelled (monitors only): GEV fits (log1p/expm1 are not available to the executable model), stretched-exponential binned fit (incomplete gamma function), esl_gumbel/esl_exp tail "
-                  "variants via SetExpectedTail. Log-normal sigma uses the n-1 variance, not the ML n; esl_rootfinder.c is not used by any fit; libm and libc qsort are trusted. "
-                  "Seven genuine defects found while building this check were repaired in /repo (b44f0f8 7d6f911 fd84f7f bad2f4e 2487976 935fded 9b72a6e); their witnesses are corpus regression cases.")
+                  "NOT a theorem: that the conjugate-gradient stopping rule (relative decrease of f below 1e-5) makes the gradient small, so 'the point reached maximises the likelihood' is proved only "
+                  "conditionally (Weibull: bounded by the derivatives at the point; stationarity => global maximum); monitored: local pattern search, fit >= generating parameters, recovery on exact "
+                  "quantile grids of every family. Gamma stationarity in tau (digamma; the code uses its own series), stretched exponential and GEV likelihood shape: not proved. "
+                  "Not modelled (monitors only): GEV fits (log1p/expm1 are not available to the executable model), stretched-exponential binned fit (esl_sxp_cdf ignores the status of "
+                  "esl_stats_IncompleteGamma and may return an unset value for extreme parameters), esl_histogram_PlotQQ/Write/Print (number formatting), esl_gumbel/esl_exp tail fits. "
+                  "A freshly allocated expect[] stays uninitialised when SetExpectedTail refuses base_val (generator issues a refused call only after expected counts exist). "
+                  "Log-normal sigma uses the n-1 variance, not the ML n; libm and libc qsort are trusted. "
+                  "Genuine defects found while building this check and repaired in /repo: b44f0f8 7d6f911 fd84f7f bad2f4e 2487976 935fded 9b72a6e 6f20587 6da6a89 8354c02; their witnesses are corpus regression cases.")
     diverge_is_violation = True
     fault_is_output = True      # faults are classified by monitor() (a hang inside a CG-based fit carries the known key)
     trusted_base = ["hand model of esl_histogram.c and of the closed-form/Newton fits tied by a bit-exact differential run (h_stats.c, ASan+UBSan build of the working tree)",
@@ -271,9 +284,12 @@ class C11(Prop):
     assumptions = ["allocation never fails (eslEMEM paths not modelled)", "libc qsort sorts (modelled as a merge sort; -0.0/0.0 ties excluded from the raw-data hash)",
                    "binary64 evaluation of (x-bmin)/w within rounding distance of a bin edge is L0: compared bit-exactly with the model, monitored with a relative 1e-9 tolerance unless all quantities are dyadic",
                    "exp(-lambda*x) outside the binary64 range (|lambda*x| > 700) is not claimed finite",
-                   "modelled C functions: esl_histogram_Create CreateFull Score2Bin Add sort DeclareCensoring DeclareRounding SetTail SetTailByMass GetRank GetData GetTail GetTailByMass; "
-                   "esl_exp_FitComplete FitCompleteScale FitCompleteBinned; esl_lognormal_FitComplete; esl_stats_DMean; lawless416 lawless422 esl_gumbel_FitComplete FitCompleteLoc FitCensored FitCensoredLoc",
-                   "not modelled (implementation-side monitors only): esl_gumbel_FitTruncated, esl_wei_*, esl_sxp_*, esl_gam_*, esl_gev_* fits, esl_min_ConjugateGradientDescent, esl_rootfinder, histogram SetExpect/Goodness/output"]
+                   "modelled C functions: esl_histogram_Create CreateFull Score2Bin Add sort DeclareCensoring DeclareRounding SetTail SetTailByMass GetRank GetData GetTail GetTailByMass "
+                   "SetExpect SetExpectedTail Goodness (with esl_stats_ChiSquaredTest/IncompleteGamma/LogGamma) and the bin accounting of Plot/PlotSurvival; "
+                   "esl_exp_FitComplete FitCompleteScale FitCompleteBinned; esl_lognormal_FitComplete FitCountHistogram; esl_stats_DMean Psi Trigamma; lawless416 lawless422 esl_gumbel_FitComplete FitCompleteLoc "
+                   "FitCensored FitCensoredLoc FitTruncated (tevd_func tevd_grad); esl_wei_FitComplete FitCompleteBinned; esl_sxp_FitComplete; esl_gam_FitComplete FitCountHistogram FitCompleteBinned; "
+                   "esl_min_ConjugateGradientDescent numeric_derivative bracket brent (incl. ESL_MIN_DAT); esl_root_Bisection NewtonRaphson",
+                   "not modelled (implementation-side monitors only): esl_gev_* fits, esl_sxp_FitCompleteBinned, histogram PlotQQ/Write/Print (text formatting), allocation failure paths"]
     rule = ("cases = histogram operation histories (create, batches of Adds that force repeated growth below and above, edge values +-1 ulp, ties, non-finite and out-of-int-range values, "
             "rank/tail/censoring queries, Add after finishing) and data sets (exact quantile grids, the library's own samplers, ties, outliers, scales 1e-6..1e6, censoring 0..0.9, degenerate sets) "
             "run through every fit; non-trivial = at least one ok answer and no fault; distinct by output trace")
@@ -914,6 +930,7 @@ class C11(Prop):
                     else: xs = [mu0 + rng.gammavariate(1.0 / tau, 1.0) ** (1.0 / tau) / lam for _ in range(n)]
                     if rng.random() < 0.15: xs[rng.randrange(n)] = xs[rng.randrange(n)]            # a tie
                     mu = min(xs) if rng.random() < 0.6 else min(xs) - rng.choice([1e-9, 1e-3, 0.5]) / lam    # pinned to the smallest sample (as the fits do) or below
+                    if rng.random() < 0.08: mu = sorted(xs)[1] if rng.random() < 0.5 else float("nan")    # a sample below mu / NaN: the objective is not finite at the start (137d847)
                     mean = sum(xs) / n
                     u = rng.random()
                     if u < 0.5: x0 = [math.log(1.0 / (mean - mu)), math.log(0.9)]                     # the fits' own start
@@ -945,7 +962,9 @@ class C11(Prop):
                         p = a + [ai * math.exp(ai * bi / max(1.0, sc)) for ai, bi in zip(a, b)]        # minimum at x_i = b_i/max(1,sc)
                     elif fam == "logbar": p = [rng.uniform(0.5, 5) for _ in range(n)]
                     else: p = [rng.uniform(0.5, 2) for _ in range(n)] + b + [rng.choice([1.0, 0.01, 100.0])]
-                    if fam == "logbar": x0 = [rng.uniform(0.05, 9) for _ in range(n)]
+                    if fam == "logbar":
+                        x0 = [rng.uniform(0.05, 9) for _ in range(n)]
+                        if rng.random() < 0.12: x0[rng.randrange(n)] = rng.choice([-1.0, 0.0, -1e-9])    # not finite AT the start point: eslERANGE returned (137d847)
                     elif fam == "rosen": x0 = rng.choice([[-1.2, 1.0], [0.0, 0.0], [1.0, 1.0], [3.0, -2.0]])
                     elif rng.random() < 0.12: x0 = list(b)                                            # start AT the optimum
                     else: x0 = [bi + rng.uniform(-2, 2) * sc for bi in b]
@@ -1214,10 +1233,15 @@ class C11(Prop):
                     if not math.isfinite(base) and l != "erange": return F("SetExpectedTail(base_val=%r) returned %r" % (base, l))
             elif name == "hexpdump":
                 r = kv(l)
+                self._hstat = getattr(self, "_hstat", {})
+                if l.startswith("ok nb="):
+                    k = "emin:" + ("sentinel" if r["emin"] == "-1" else "0" if r["emin"] == "0" else "nb" if r["emin"] == r["nb"] else "inside")
+                    self._hstat[k] = self._hstat.get(k, 0) + 1
                 if l.startswith("ok nb="):
                     if not (-1 <= int(r["emin"]) <= int(r["nb"])): return F("emin = %s outside -1..nb = %s: consumers index expect[emin..]" % (r["emin"], r["nb"]))
             elif name == "hgood":
                 st = l.split()[0]; r = kv(l)
+                self._hstat = getattr(self, "_hstat", {}); self._hstat["goodness:" + st] = self._hstat.get("goodness:" + st, 0) + 1
                 if st not in ("ok", "enoresult", "einval", "enohalt", "erange"): return F("Goodness returned the undocumented status %r" % st)
                 if st == "ok":
                     gp, xp = fbits(r["Gp"]), fbits(r["X2p"])
@@ -1644,7 +1668,7 @@ class C11(Prop):
         return None
 
     def extra_evidence(self, ctx):
-        return {"input_distribution": dict(getattr(self, "_dist", {}), solver_cases=getattr(self, "_nsolver", 0)), "solver_ops_by_status": getattr(self, "_solver", {}), "optimiser_fit_max_relative_logL_gap": getattr(self, "_calib", {}),
+        return {"input_distribution": dict(getattr(self, "_dist", {}), solver_cases=getattr(self, "_nsolver", 0)), "solver_ops_by_status": getattr(self, "_solver", {}), "histogram_expect_goodness": getattr(self, "_hstat", {}), "optimiser_fit_max_relative_logL_gap": getattr(self, "_calib", {}),
                 "max_recovery_error_on_quantile_grids": getattr(self, "_rec", {}),
                 "max_relative_logL_shortfall_vs_generating_parameters": getattr(self, "_truth", {})}
 
